@@ -621,7 +621,10 @@ class Gen:
                 # a dividend that is provably non-negative (the result still has the sign of the divisor)
                 dividend = rng.choice([("fn", "abs", dividend), ("bin", "*", dividend, dividend), ("fn", "exp", ("bin", "*", ("num", "0.1"), dividend))])
             return ("mod", dividend, rng.choice([self.poslit(), ("neg", self.poslit()), ("neg", self.poslit()),
-                                                  ("bin", "+", ("fn", "abs", self.expr(names, d - 2)), self.poslit())]))
+                                                  ("bin", "+", ("fn", "abs", self.expr(names, d - 2)), self.poslit()),
+                                                  # divisors that are products / quotients (operator precedence in the printed form)
+                                                  ("bin", "*", self.poslit(), ("bin", "+", ("fn", "abs", self.expr(names, d - 2)), self.poslit())),
+                                                  ("bin", "/", ("bin", "+", ("fn", "abs", self.expr(names, d - 2)), self.poslit()), self.poslit())]))
         return self.leaf(names)
 
     def safe_den(self, names, d):
@@ -751,7 +754,10 @@ class Gen:
             lines[rng.choice(comps)].append({"name": "ind_a", "expr": self.rel(pool, 1), "comment": None})
             lines[rng.choice(comps)].append({"name": "ind_b", "expr": self.rel(pool, rng.choice([1, 2])), "comment": None})
             comb = rng.choice([("bin", "+", ("var", "ind_a"), ("var", "ind_b")), ("bin", "-", ("var", "ind_a"), ("var", "ind_b")),
-                               ("bin", "+", ("neg", ("var", "ind_a")), ("bin", "*", ("num", "3"), ("var", "ind_b")))])
+                               ("bin", "+", ("neg", ("var", "ind_a")), ("bin", "*", ("num", "3"), ("var", "ind_b"))),
+                               # the indicators (numbers 1 / 0) as operands of Not / And / Or: logical, not bitwise, negation
+                               ("cond", ("not", ("var", "ind_a")), ("num", "2.5"), ("var", "ind_b")),
+                               ("cond", ("and", [("not", ("var", "ind_b")), ("var", "ind_a")]), ("num", "1.5"), ("num", "0.25"))])
             s0 = rng.choice(states)
             for ln in lines[comp_of[s0]]:
                 if ln["name"] == f"d{s0}_dt":
